@@ -143,8 +143,10 @@ func execC09J(c *Ctx) {
 			H := cx.node(hosts[1])
 			H.mu.Lock()
 			got := false
-			for _, mr := range H.merged {
-				if string(mr.Buf) == "user-state-of-the-joiner" {
+			for i, mr := range H.merged {
+				// only the join exchange is subject to the veto: the joiner's periodic anti-entropy
+				// push/pull may reach the same host at the same time and is merged regardless
+				if string(mr.Buf) == "user-state-of-the-joiner" && i < len(H.mergedJoin) && H.mergedJoin[i] {
 					got = true
 				}
 			}
